@@ -1012,11 +1012,27 @@ def compare_state(want, got, fields=ALL_FIELDS):
   return None
 
 
+HANG_SECONDS = 40
+
+
+class ReplayHangs(BaseException):
+  """Raised by the watchdog alarm inside a replay."""
+
+
 def replay(beh, fields=ALL_FIELDS, at_end=None, salt=0):
   """Steps one exported GinCore behaviour through the real gin.
   Returns None if the code conforms, else a dict describing the first divergence."""
   # literal pools are seeded from the behaviour itself, so that a replay file reproduces exactly
   world = World(beh[0]['reg'], pool_seed=zlib.crc32(core.jdump([s['out'] for s in beh[:4]]).encode()) + core.seed() + salt)
+  # a behaviour that does not come back (a lock taken twice, a wait that nobody ends) is a divergence, not a stall
+  import signal
+  step_box = [0]
+
+  def _alarm(signum, frame):
+    raise ReplayHangs()
+  old_handler = signal.signal(signal.SIGALRM, _alarm) if hasattr(signal, 'SIGALRM') else None
+  if old_handler is not None or hasattr(signal, 'SIGALRM'):
+    signal.alarm(HANG_SECONDS)
   world.reserved = set(dotted(st['out']['conf']['sel']) for st in beh[1:] if st['out'].get('op') == 'Register')
   try:
     bad = {k: v for k, v in world.reg_status.items() if v != 'ok'}
@@ -1024,6 +1040,7 @@ def replay(beh, fields=ALL_FIELDS, at_end=None, salt=0):
       return dict(step=0, action='Init', clause='out.registration', expected='ok', got=bad, args={})
     for i, st in enumerate(beh):
       o = st['out']
+      step_box[0] = i
       if i > 0:
         try:
           got = world.apply(o)
@@ -1038,7 +1055,13 @@ def replay(beh, fields=ALL_FIELDS, at_end=None, salt=0):
     if at_end is not None:
       return at_end(world, beh)
     return None
+  except ReplayHangs:
+    return dict(step=step_box[0], action=beh[step_box[0]]['out'].get('op') if step_box[0] < len(beh) else '?', clause='hangs',
+                expected='returns', got='no return within %d s' % HANG_SECONDS, args={})
   finally:
+    if hasattr(signal, 'SIGALRM'):
+      signal.alarm(0)
+      signal.signal(signal.SIGALRM, old_handler or signal.SIG_DFL)
     world.close()
 
 
